@@ -40,6 +40,7 @@ Definition XK_KP_9 : Z := 65465.  (* 0xffb9 *)
 (** keysyms named by the C05 key alphabet (checked against Gen/Keymaps.v by
     the theorems that use them) *)
 Definition XK_BackSpace : Z := 65288.  (* 0xff08 *)
+Definition XK_Return : Z := 65293.     (* 0xff0d *)
 Definition XK_Escape : Z := 65307.     (* 0xff1b *)
 Definition XK_Home : Z := 65360.       (* 0xff50 *)
 Definition XK_End : Z := 65367.        (* 0xff57 *)
